@@ -178,6 +178,45 @@ def call_findbane(path, d, tag):
     return rows_tok(rows) + ":held=%d" % len(sf.sources)
 
 
+_SHARED = {}
+_CURRENT = {}          # path -> name of the contents last written there
+
+
+def _shared(path):
+    """ONE SourceFinder object per image for the whole process: the `aegean` program and scripts run the blind
+    search, the priorized fit and --save on the same object.  (A SourceFinder is bound to the first image it
+    loads - load_globals does not reload - so an object is never handed a second image here.)"""
+    from AegeanTools.source_finder import SourceFinder
+    key = _CURRENT.get(path)
+    if key not in _SHARED:
+        _SHARED[key] = SourceFinder()
+    return _SHARED[key]
+
+
+def call_findreuse(path, d, tag):
+    rows = _shared(path).find_sources_in_image(path, cores=1, nonegative=False, rms=SIG, bkg=0.0)
+    return rows_tok(rows)
+
+
+def call_priorreuse(path, d, tag):
+    sf = _shared(path)
+    rows = sf.find_sources_in_image(path, cores=1, nonegative=False, rms=SIG, bkg=0.0)
+    out = sf.priorized_fit_islands(path, catalogue=rows, rms=SIG, bkg=0.0, cores=1, stage=1, ratio=1.0)
+    return rows_tok(out)
+
+
+def call_savereuse(path, d, tag):
+    from astropy.io import fits
+    sf = _shared(path)
+    base = os.path.join(d, tag + "_sv")
+    sf.save_background_files(path, rms=SIG, bkg=0.0, cores=1, outbase=base)
+    t = atok(fits.getdata(base + "_bkg.fits"), fits.getdata(base + "_rms.fits"))
+    for suf in ("_bkg.fits", "_rms.fits", "_crv.fits", "_snr.fits"):
+        if os.path.exists(base + suf):
+            os.remove(base + suf)
+    return t
+
+
 def call_islands(path, d, tag):
     import numpy as np
     from astropy.io import fits
@@ -387,7 +426,7 @@ def call_catmodel(path, d, tag):
 
 
 IMAGE_CALLS = ["bane", "banefiles", "find", "findbane", "islands", "band", "wcs", "findsave", "prior", "aeres",
-               "mask", "compress"]
+               "mask", "compress", "findreuse", "priorreuse"]
 REGION_CALLS = ["regquery", "regmutate", "regintersect", "regexport"]
 TABLE_CALLS = ["catload", "catregroup", "catsave", "catmodel"]
 IMAGES, REGIONS, TABLES = ["A", "B", "G", "CA", "CB"], ["RA", "RB"], ["TA", "TB"]
@@ -395,6 +434,7 @@ IMAGES, REGIONS, TABLES = ["A", "B", "G", "CA", "CB"], ["RA", "RB"], ["TA", "TB"
 CALLS = {"regquery": call_regquery, "regmutate": call_regmutate, "regintersect": call_regintersect,
          "regexport": call_regexport, "catload": call_catload, "catregroup": call_catregroup,
          "catsave": call_catsave, "catmodel": call_catmodel,
+         "findreuse": call_findreuse, "priorreuse": call_priorreuse, "savereuse": call_savereuse,
          "bane": call_bane, "banefiles": call_banefiles, "find": call_find, "findbane": call_findbane,
          "islands": call_islands, "band": call_band, "wcs": call_wcs, "findsave": call_findsave,
          "prior": call_prior, "aeres": call_aeres, "mask": call_mask, "compress": call_compress}
@@ -418,6 +458,7 @@ def main():
         p = paths.setdefault(s["path"], os.path.join(d, "%s_%s.fits" % (tag, s["path"])))
         if s["op"] == "write":
             write_content(s["content"], p, spec["contents"])
+            _CURRENT[p] = s["content"]
             written[p] = file_digest(p)
             out.append({"op": "write"})
             continue
@@ -427,6 +468,7 @@ def main():
                 rec["tok"] = CALLS[s["call"]](p, d, "%s_s%d" % (tag, n))
         except BaseException as e:
             rec["tok"] = "raised:%s" % type(e).__name__
+            rec["why"] = str(e)[:200]
         rec["intact"] = os.path.exists(p) and file_digest(p) == written.get(p)
         out.append(rec)
     for p in paths.values():
